@@ -39,7 +39,7 @@ STRENGTHENED.update({
  'C02-r4': 'missed at first (no stable-buffer mode in the histories). Added unit `c02-stable`: every history of <= 3 continue / flush calls on a growing stable input buffer, then end, with and without a stable output buffer.',
  'C04-r4': 'missed at first (literal sections of the catalogue were too short and too uniform for the four streams to drift apart). Added compressor records with 2.5 / 12 KB of Huffman literals whose one quarter uses three frequent symbols.',
  'C05-r4': 'missed at first by C05 (C08 caught it). The dictionary entries of the block-type family now take a raw dictionary or structured ones with IDs 255 / 256 / 65535 / 65536; the frame must carry that ID.',
- 'C07-r4': 'NOT CAUGHT. `c07-opt` got a digested-dictionary variant (prior frame with the dictionary\'s table geometry, 3-byte-match texture, reference output round-tripped); in the sanitizer build the fresh and the reused context still agree on the inputs of the bound.',
+ 'C07-r4': 'missed at first, and on two further attempts (prior frame with the dictionary\'s table geometry; unsanitized build, where it only showed through memory recycled inside a worker process and could not be replayed). Decided by a custom allocator whose blocks arrive filled with small plausible indices, i.e. looking like a recycled index table: the digested-dictionary variant of `c07-opt` then differs from a fresh context, reproducibly.',
  'C08-r4': 'missed at first (dictionaries were always loaded as ZSTD_dct_auto). Added unit `c08-rawcontent`: every structured dictionary declared raw content x {CDict, loadDictionary, refPrefix} x 4 attachment strategies x 3 levels: no ID in the frame, decodes with the bytes as raw content, R agrees.',
  'C10-r4': 'missed at first by C10 (the rsyncable subject of C07 hung on it). Added MT driver D15: rsyncable with real synchronisation points (256 KiB jobs, 2.5 MiB), end / flush with and without payload; the livelock horizon fires.',
  'C11-r4': 'NOT CAUGHT. Driver D16 (LDM, 3-4 workers, 24 jobs, window 4 KiB so that the round buffer wraps) was added and explored in the race-detecting build: exhaustive at P=1, D=1 (4 303 schedules), 470 387 schedules at P=2, D=2 in 600 s; the required schedule (one LDM step four sections behind the caller right after a wrap) was not reached.',
